@@ -5,6 +5,28 @@ MODULE = "PestModel.Thm.C06"
 DRV, MODE = "drv_valid", "grammar"
 
 
+SKIPREC_ID = "C06-implicit-skip-recursion"
+
+
+def classify(ctx, kind, t):
+    """non-termination of an accepted grammar in which WHITESPACE/COMMENT refers to rules and some rule is `!{}`
+    (the implicit skip inside the non-atomic rule re-enters WHITESPACE/COMMENT) is the recorded finding."""
+    import re
+    i, op, imp, verdict = t
+    if kind != "oracle" or "does not terminate" not in verdict:
+        return None
+    ws_refs = False
+    for m in re.finditer(r"\(rule (WHITESPACE|COMMENT) \w ", op):
+        depth, k = 1, m.end()
+        while k < len(op) and depth > 0:
+            depth += (op[k] == "(") - (op[k] == ")"); k += 1
+        if re.search(r"\(id (?!ANY|SOI|EOI|ASCII_|NEWLINE)", op[m.end():k]):
+            ws_refs = True
+    if ws_refs and re.search(r"\(rule \S+ x ", op) and ctx.match_known(lambda k: k["id"] == SKIPREC_ID):
+        return {"id": SKIPREC_ID, "what": "an accepted grammar whose WHITESPACE/COMMENT reaches a non-atomic `!{}` rule that can reach its first `~` without consuming input recurses for ever through the implicit skip: WHITESPACE = _{ a }  a = !{ EOI ~ \"x\" } (native stack overflow on any input)"}
+    return None
+
+
 def run(ctx):
     cs = simple_property(
         ctx, MODULE, DRV, MODE,
@@ -16,7 +38,7 @@ def run(ctx):
             "error messages are mapped to kinds by text; spans are not compared (the left-recursion chain text depends on HashMap order)",
             "non-termination can only be observed (time limit / native stack); the termination theorem is about the reference semantics",
         ],
-        leancheck=[MODULE, "PestModel.Model.Validator"],
+        leancheck=[MODULE, "PestModel.Model.Validator"], classify=classify,
     )
     ok, out, bindir, _ = cargo_build("extras", [DRV])
     if ok:
